@@ -11,7 +11,8 @@ import (
 
 // body-less: intercepted by the executor.
 func modelChoice(n int) int  // 0 unless order-free mode is on, then an arbitrary value in [0,n)
-func modelOrderFree() bool   // true in order-free mode (C07 harnesses)
+func modelOrderFree() bool   // true in order-free mode (C07 harnesses) while the deviation budget lasts
+func modelDeviated()         // one iteration left insertion order: spends one unit of the deviation budget
 
 type equaler[T any] interface{ Equal(t T) bool }
 type samer interface{ Same(a any) bool }
@@ -27,20 +28,49 @@ func equal[T any](a, b T) bool {
 	return i == any(b)
 }
 
-// order returns the elements in iteration order: insertion order, or an arbitrary permutation.
+// order returns the elements in iteration order: insertion order, or - in order-free mode and
+// while the deviation budget lasts - another order: any permutation of up to 3 elements, any
+// single transposition of more.
 func order[T any](elems []T) []T {
-	if len(elems) < 2 || !modelOrderFree() {
+	n := len(elems)
+	if n < 2 || !modelOrderFree() {
 		return elems
 	}
-	rest := make([]T, len(elems))
-	copy(rest, elems)
-	out := make([]T, 0, len(elems))
-	for len(rest) > 1 {
-		k := modelChoice(len(rest))
-		out = append(out, rest[k])
-		rest = append(rest[:k], rest[k+1:]...)
+	out := make([]T, n)
+	copy(out, elems)
+	if n <= 3 {
+		rest := make([]T, n)
+		copy(rest, elems)
+		out = out[:0]
+		deviated := false
+		for len(rest) > 1 {
+			k := modelChoice(len(rest))
+			if k != 0 {
+				deviated = true
+			}
+			out = append(out, rest[k])
+			rest = append(rest[:k], rest[k+1:]...)
+		}
+		if deviated {
+			modelDeviated()
+		}
+		return append(out, rest[0])
 	}
-	return append(out, rest[0])
+	k := modelChoice(1 + n*(n-1)/2)
+	if k == 0 {
+		return elems
+	}
+	modelDeviated()
+	k--
+	for i := 0; i < n; i++ {
+		if k < n-1-i {
+			j := i + 1 + k
+			out[i], out[j] = out[j], out[i]
+			break
+		}
+		k -= n - 1 - i
+	}
+	return out
 }
 
 // Key represents a type that can be used as a key in a Map or a Set.
